@@ -31,10 +31,11 @@ EXPLANATION = (
     'occur in mirrored white/black pairs.'
     ' (6) PGN scanner look-ahead: every character read is appended, matched as a delimiter, skipped as white space or handed back before the next read / the return.'
     ' Added later; the UCI promotion suffix of both printers is obtained by interpreting them per promotion code (fall-through and table look-up forms included).'
-    ' Added later; (8) in every token-reading loop of the PGN parser the arm that recognises END has no path back to the loop header.')
+    ' Added later; (8) in every token-reading loop of the PGN parser the arm that recognises END has no path back to the loop header. (9) the castling text of the short / long form is printed for exactly the king\'s two-square moves from home (all 64 x 64 x 12 from/to/piece). (10) readFEN bounds the men per side by 16, which the unchecked 256-entry MoveList relies on - found and fixed defect D18.')
 UNDECIDED = ('uniqueness of short move forms, round-trip equality of values, robustness against every byte string (needs execution); '
              'PGN tree round trip beyond the scanner look-ahead discipline of clause 6.')
-ASSUMPTIONS = ['char is an 8-bit type; the piece enumerators are those of Piece::Type']
+ASSUMPTIONS = ['char is an 8-bit type; the piece enumerators are those of Piece::Type',
+               'a position with at most 16 men per side has at most 256 pseudo-legal moves (the usual engine bound; the known maximum of legal moves is 218): C17.10 checks the 16, not the 256']
 
 
 def _strip(t):
@@ -52,6 +53,8 @@ def run(fb, rep, tier):
     c6_scanner_lookahead(fb, rep)
     c7_eof_width(fb, rep)
     c8_end_token_leaves_loops(fb, rep)
+    c9_castle_text(fb, rep)
+    c10_men_per_side_bounded(fb, rep)
 
 
 PIECES = ['WKING', 'WQUEEN', 'WROOK', 'WBISHOP', 'WKNIGHT', 'WPAWN', 'BKING', 'BQUEEN', 'BROOK', 'BBISHOP', 'BKNIGHT', 'BPAWN']
@@ -729,3 +732,185 @@ def c8_end_token_leaves_loops(fb, rep):
                 rep.ob(clause, 'K2 loop exit', '%s: in token loop #%d the END token leaves the loop' % (f.sname, n), not back, '%s:%s' % (f.file, ln),
                        '%s at block %s; loop header %s' % (how, sb, hdr), f.sname)
     rep.floor(clause, 'END recognisers inside token-reading loops of the PGN parser', n, 2)
+
+
+# ----------------------------------------------------------------------------- .9
+
+def c9_castle_text(fb, rep):
+    """K12 the castling text of the short / long move form.  stringToMove() recognises a move by printing every legal move and
+    comparing, so "O-O" / "O-O-O" must be printed for exactly the king's two-square moves from its home square and for
+    nothing else: printed for another piece's move it reads back as no move (or as the castling move, when that is legal
+    too); not printed for castling, the standard text is not understood.  The guards of every statement that appends a
+    castling text are evaluated for all 64 x 64 x 12 (from, to, moving piece) combinations."""
+    clause = 'C17.9'
+    cands = [f for f in fb.funcs.values() if f.has_cfg and f.sname.split('::')[-1] == 'moveToString' and len(f.d.get('params', [])) == 4 and len(f.blocks) > 20]
+    f = cands[0] if len(cands) == 1 else None
+    if rep.need(clause, f, 'the short/long form printer moveToString(pos, move, longForm, moves)') is None:
+        return
+    ctor = next((g for g in fb.funcs.values() if g.sname == 'Square::Square' and len(g.d.get('params', [])) == 2 and g.has_cfg), None)
+    sq_init = next((e.get('init') for _, _, e in ctor.events() if e.get('k') == 'minit'), None) if ctor is not None else None
+    if rep.need(clause, sq_init, 'Square::Square(int, int) member initialiser') is None:
+        return
+    WK, BK = fb.const('Piece::WKING'), fb.const('Piece::BKING')
+    npt = fb.const('Piece::nPieceTypes')
+    home = {WK: fb.const('E1'), BK: fb.const('E8')}
+    if rep.need(clause, None if None in (WK, BK, npt, home[WK], home[BK]) else 1, 'piece / square constants') is None:
+        return
+    p_pos, p_move = f.d['params'][0]['id'], f.d['params'][1]['id']
+    state = {}
+
+    def recv_is(t, pid):
+        r = t.get('recv')
+        while isinstance(r, dict) and r.get('k') in ('cast', 'paren'):
+            r = r.get('e')
+        return isinstance(r, dict) and r.get('k') == 'var' and r.get('id') == pid
+
+    def stub_from(ev, t, env, depth):
+        if not recv_is(t, p_move):
+            raise Unknown('from() of another move')
+        return state['from']
+
+    def stub_to(ev, t, env, depth):
+        if not recv_is(t, p_move):
+            raise Unknown('to() of another move')
+        return state['to']
+
+    def stub_piece(ev, t, env, depth):
+        if not recv_is(t, p_pos):
+            raise Unknown('getPiece of another position')
+        sq = ev.eval(t['args'][0], env, depth + 1)
+        if sq == state['from']:
+            return state['piece']
+        raise Unknown('piece on another square')
+
+    def ctor_hook(cls, args):
+        if cls == 'Square' and len(args) == 2:
+            pe = Evaluator(fb)
+            return pe.eval(sq_init, {('v', ctor.d['params'][0]['id']): args[0], ('v', ctor.d['params'][1]['id']): args[1]})
+        return None
+    ev = Evaluator(fb, stubs={'Move::from': stub_from, 'Move::to': stub_to, 'Position::getPiece': stub_piece}, ctor_hook=ctor_hook)
+    sites = []
+    for b, i, e in f.events():
+        txt = [x.get('v') for x in walk(e) if isinstance(x, dict) and x.get('k') == 'str' and str(x.get('v', '')).startswith('O-O')]
+        if txt and e.get('k') in ('call', 'asg'):
+            sites.append((b, i, e, txt[0], G.guard_trees(f, set(f.blocks), b)))
+    if rep.floor(clause, 'statements that append a castling text', len(sites), 2) is False or not sites:
+        return
+    decls = [v for _, _, e in f.events() if e.get('k') == 'decl' for v in e.get('vars', []) if v.get('init') is not None]
+    used = {n.get('id') for _, _, _, _, gs in sites for c, _ in gs for n in walk(c) if isinstance(n, dict) and n.get('k') == 'var' and n.get('vk') == 'local'}
+    # locals the guards mention, and what their initialisers mention
+    for _ in range(3):
+        for v in decls:
+            if v['id'] in used:
+                used |= {n.get('id') for n in walk(v['init']) if isinstance(n, dict) and n.get('k') == 'var' and n.get('vk') == 'local'}
+    decls = [v for v in decls if v['id'] in used]
+
+    def tri(c, env):
+        try:
+            return bool(ev.eval(c, env))
+        except Unknown:
+            return None
+    bad, n_states, n_emit, undecided = [], 0, 0, 0
+    for frm in range(64):
+        for pc in range(1, npt):
+            for to in range(64):
+                state.update({'from': frm, 'to': to, 'piece': pc})
+                env = {}
+                for _ in range(2):
+                    for v in decls:
+                        try:
+                            env[('v', v['id'])] = ev.eval(v['init'], env)
+                        except Unknown:
+                            pass
+                out = set()
+                for b, i, e, txt, gs in sites:
+                    vals = [tri(c, env) == side if tri(c, env) is not None else None for c, side in gs]
+                    if any(v is False for v in vals):
+                        continue
+                    if any(v is None for v in vals):
+                        undecided += 1
+                        continue
+                    out.add(txt)
+                n_states += 1
+                want = set()
+                if pc in home and frm == home[pc] and to == frm + 2:
+                    want = {'O-O'}
+                elif pc in home and frm == home[pc] and to == frm - 2:
+                    want = {'O-O-O'}
+                n_emit += 1 if out else 0
+                if out != want and len(bad) < 5:
+                    bad.append('from %d to %d piece %d: prints %s, castling text wanted %s' % (frm, to, pc, sorted(out) or 'none', sorted(want) or 'none'))
+                elif out != want:
+                    bad.append('')
+    if undecided:
+        rep.broken(clause, 'castling-text guards not evaluable in %d (state, site) pairs' % undecided)
+        return
+    rep.floor(clause, 'states in which a castling text is printed', n_emit, 4 if not bad else 0)
+    rep.ob(clause, 'K12 finite evaluation', 'moveToString: "O-O" / "O-O-O" is printed for exactly the king\'s two-square moves from its home square (all from x to x moving piece)',
+           not bad, R.site(f, sites[0][2]), '%d states, %d print a castling text%s' % (n_states, n_emit, ('; ' + '; '.join(x for x in bad[:3] if x) + ' (%d in all)' % len(bad)) if bad else ''), f.sname)
+
+
+# ----------------------------------------------------------------------------- .10
+
+def c10_men_per_side_bounded(fb, rep):
+    """K12 range of a value that sizes fixed storage.  MoveList holds 256 moves without a bounds check (the generators append
+    unconditionally: C01); that is enough for positions with at most 16 men per side and not for arbitrary placements
+    (46 queens give 263 moves).  Positions enter from text only through TextIO::readFEN, so readFEN must reject a side with
+    more than 16 men on every path to its normal return: a throw guarded by `count > c` with c <= 16 for each colour,
+    where count is the population of the colour's piece set or a local counted up in a loop."""
+    clause = 'C17.10'
+    f = fb.find1('TextIO::readFEN')
+    if rep.need(clause, f, 'TextIO::readFEN') is None:
+        return
+    cap = fb.const('MoveList::MAX_MOVES')
+    if rep.need(clause, cap, 'MoveList::MAX_MOVES') is None:
+        return
+    counters = set()
+    for b, i, e in f.events():
+        if e.get('k') == 'incdec' and e.get('op') == '++':
+            v = _strip(e.get('e'))
+            if isinstance(v, dict) and v.get('k') == 'var' and v.get('vk') == 'local':
+                counters.add(v['id'])
+    # facts that hold at every normal return: the conditions of the dominating tests with the side taken
+    rets = [b for b, blk in f.blocks.items() if b not in f.dead and any(e.get('k') == 'ret' for e in blk['ev'])]
+    if rep.need(clause, rets, 'a normal return of readFEN') is None:
+        return
+    per_ret = []
+    for rb in rets:
+        found = {}      # colour set / counter -> upper bound established on the way to this return
+        for c, side in G.guard_trees(f, set(f.blocks), rb):
+            c = _strip(c)
+            if not (isinstance(c, dict) and c.get('k') == 'bin' and c.get('op') in ('>', '>=', '<', '<=')):
+                continue
+            l, r = _strip(c.get('l')), _strip(c.get('r'))
+            op = c['op']
+            if isinstance(l, dict) and 'cv' in l and not (isinstance(r, dict) and 'cv' in r):
+                l, r = r, l
+                op = {'>': '<', '<': '>', '>=': '<=', '<=': '>='}[op]
+            if not (isinstance(r, dict) and 'cv' in r and isinstance(l, dict)):
+                continue
+            if not side:
+                op = {'>': '<=', '<=': '>', '>=': '<', '<': '>='}[op]
+            if op not in ('<', '<='):
+                continue
+            bound = r['cv'] if op == '<=' else r['cv'] - 1        # count <= bound holds at the return
+            key = None
+            if l.get('k') == 'call' and cname(l).split('::')[-1] == 'bitCount':
+                inner = [cname(n).split('::')[-1] for n in walk(l) if isinstance(n, dict) and n.get('k') == 'call' and cname(n).split('::')[-1] in ('whiteBB', 'blackBB')]
+                if len(inner) == 1:
+                    key = inner[0]
+            elif l.get('k') == 'var' and l.get('id') in counters:
+                key = 'counter#%d' % (sorted(counters).index(l['id']) + 1)
+            if key is not None and (key not in found or bound < found[key]):
+                found[key] = bound
+        per_ret.append(found)
+    found = {}
+    for k in set().union(*[set(x) for x in per_ret]):
+        if all(k in x for x in per_ret):
+            found[k] = max(x[k] for x in per_ret)
+    sets = [k for k in found if k in ('whiteBB', 'blackBB')]
+    locs = [k for k in found if k.startswith('counter#')]
+    n_sides = len(sets) + min(len(locs), 2 - len(sets))
+    ok = n_sides >= 2 and all(v <= 16 for v in found.values())
+    rep.ob(clause, 'K12 range', 'readFEN rejects a side with more than 16 men before it returns a position (MoveList holds %d moves unchecked)' % cap, ok, f.where,
+           'upper bounds that hold at every normal return: %s' % found, f.sname)
